@@ -12,10 +12,13 @@
        every instant before the TTL has elapsed and nothing afterwards.
    (e) any number of different peers: after their announcements, in any order and at any times, get_known_services lists
        exactly the peers whose TTL has not elapsed, each as advertised.
-   PARTIAL: re-announcements of an instance already heard (HashMap key retention, iteration order of merged record sets)
-   are covered by the DISC slice only. Property theorems only. *)
+   (f) ANY sequence of announcements, repeats included (a peer heard before announcing the same instance again, possibly
+       with another TTL): get_known_services equals a simple abstract view, instance name -> (instance as first advertised,
+       expiry of the LAST reception).
+   PARTIAL: a re-announcement that CHANGES the instance's data (e.g. a superset of the addresses, which the store merges in
+   HashMap order) is covered by the DISC slice only. Property theorems only. *)
 Require Import SD.Base SD.Codes SD.Header SD.HeaderProofs SD.Name SD.RData SD.Packet SD.RoundTrip SD.TextApi SD.TextApiProofs
-  SD.Store SD.DiscoveryProofs SD.DiscoveryStore.
+  SD.Store SD.DiscoveryProofs SD.DiscoveryStore SD.Reannounce.
 
 Theorem C15_discovered : forall i service inst me ttl h recs,
   let full := inst :: service in
@@ -46,6 +49,20 @@ Theorem C15_several_peers : forall service me ttl0 peers now',
   List.concat (map (fun p => if now' <? p_now p + 2 * p_ttl p then [peer_instance p] else []) peers).
 Proof. exact known_after_announcements. Qed.
 Print Assumptions C15_several_peers.
+
+Theorem C15_any_announcements : forall service me ttl0 anns now',
+  Forall peer_ok anns -> (forall p q, In p anns -> In q anns -> agrees q p) ->
+  known_services (receive_all service anns (fresh_store service me ttl0)) service now' =
+  List.concat (map (fun x : entry => if now' <? snd x then [peer_instance (fst x)] else []) (abs_view anns)).
+Proof. exact known_after_any_announcements. Qed.
+Print Assumptions C15_any_announcements.
+(* the abstract view, spelled out: a new name is appended; a name heard before keeps its entry and gets the new expiry *)
+Example C15_view_is : forall st p, abs_insert st p =
+  match st with
+  | [] => [(p, p_now p + 2 * p_ttl p)]
+  | (q, e) :: t => if bytes_eqb (p_inst q) (p_inst p) then (q, p_now p + 2 * p_ttl p) :: t else (q, e) :: abs_insert t p
+  end.
+Proof. intros [|[q e] t] p; reflexivity. Qed.
 
 Theorem C15_ingest_filter : forall service me p r,
   In r (ingest_filter service me p) <->
